@@ -162,9 +162,10 @@ def cbrt_ref(k):
 def check_C13(ctx, rep):
     f = ctx.facts("A")
     fx = Fx(f, rep)
-    check_ref(fx, "R31", "TwoFloat::sqrt", sqrt_ref(), "negative -> NaN; zero -> 0; else Karp-Markstein: x=1/sqrt(hi); y=hi*x; new_add(y, (self - new_mul(y,y)).hi * (x*0.5))")
+    ok_sqrt = check_ref(fx, "R31", "TwoFloat::sqrt", sqrt_ref(), "negative -> NaN; zero -> 0; else Karp-Markstein: x=1/sqrt(hi); y=hi*x; new_add(y, (self - new_mul(y,y)).hi * (x*0.5))")
     s, o = param(0), param(1)
-    check_ref(fx, "R31", "TwoFloat::hypot", RETV((s * s + o * o).sqrt()), "sqrt(x*x + y*y)")
+    ok_hypot = check_ref(fx, "R31", "TwoFloat::hypot", RETV((s * s + o * o).sqrt()), "sqrt(x*x + y*y)")
+    check_root_errors(fx, ok_sqrt, ok_hypot)
     # cbrt: zero guard, then k >= 1 Newton steps x - (x^2*x - a)/(3*x^2) from the f64 estimate
     try:
         t, b = fx.tree("TwoFloat::cbrt")
@@ -182,13 +183,84 @@ def check_C13(ctx, rep):
                   where=H.where(b), detail="zero guard + %s Newton steps" % ok)
         # R32 exact zero analysis: with a zero argument no division by a definite zero is reached
         check_zero_division(fx, "TwoFloat::cbrt", t, b)
+        if ok is not None:
+            check_cbrt_error(fx, ok)
     check_powi(fx)
-    check_powi_loop(fx)
+    if check_powi_loop(fx):
+        check_powi_error(fx)
     from . import rules_total
     rules_total.totality(rep, f, "R30", rules_total.entries_C13(), "powi / Pow / roots", min_sites=0)
     from .rules_c10 import check_delegation_subset
     check_delegation_subset(rep, f, {"sqrt", "cbrt", "hypot", "powi", "recip"})
     rep.floor("R31", len([o2 for o2 in rep.obl if o2["rule"] == "R31"]), 3, "root functions")
+
+def check_root_errors(fx, ok_sqrt, ok_hypot):
+    """R31e: relative error of the Karp-Markstein square root (DESIGN B.3) and of hypot, in exact rationals.
+    a = hi + lo = hi(1+t), s = sqrt(a);  y = s(1+d1),  x = (1/s)(1+d2)  from three correctly rounded f64 operations;
+    y*y exact (2Prod), a - y^2 within Alg. 6, its high word within u, one f64 product, the final 2Sum exact:
+        result / s - 1  =  -d1^2/2 - (d1 + d1^2/2) eta,      1 + eta = (1+e3)(1+e4)(1+e5)(1+d2)."""
+    from . import errbound as EB
+    rep = fx.rep; Fr = _Fr
+    u = EB.U
+    if not ok_sqrt:
+        return
+    sq_lo = 1 - u / 2 - u * u / 2          # <= sqrt(1 - u)
+    sq_hi = 1 + u / 2                      # >= sqrt(1 + u)
+    d1 = max((1 + u) ** 2 / ((1 - u) * sq_lo) - 1, 1 - (1 - u) ** 2 / ((1 + u) * sq_hi))
+    d2 = max(sq_hi * (1 + u) / (1 - u) - 1, 1 - sq_lo * (1 - u) / (1 + u))
+    eta = (1 + EB.E_ADD_DD) * (1 / (1 - u)) * (1 + u) * (1 + d2) - 1
+    rel = d1 * d1 / 2 + (d1 + d1 * d1 / 2) * eta
+    L = EB.log2f
+    u2 = u * u
+    rep.check(rel <= 32 * u2, "R31e", "sqrt relative error for hi in [2^-900, 2^900]", "errbound:sqrt",
+              "the Karp-Markstein step is bounded only by %.2f u^2, the property needs 32 u^2" % float(rel / u2),
+              detail={"bound": "%.2f * 2^-106" % float(rel / u2), "d1 (y vs sqrt a)": "%.3f u" % float(d1 / u), "d2 (x vs 1/sqrt a)": "%.3f u" % float(d2 / u), "eta": "%.3f u" % float(eta / u),
+                      "lemmas": "libm::sqrt, 1/q and hi*x correctly rounded; 2Prod/2Sum exact and Alg. 6 within 3u^2+13u^3 (C02, C03 conformance); no under/overflow on the stated range"})
+    if ok_hypot:
+        eps = (1 + EB.E_MUL_DD) * (1 + EB.E_ADD_DD) - 1          # x*x + y*y: squares within 5u^2, a sum of positive terms
+        tot = (1 + rel) * (1 + eps / 2 + eps * eps) - 1
+        rep.check(tot <= 48 * u2, "R31e", "hypot relative error for high words in [2^-400, 2^400]", "errbound:hypot",
+                  "hypot is bounded only by %.2f u^2, the property needs 48 u^2" % float(tot / u2), detail="%.2f * 2^-106" % float(tot / u2))
+
+def check_cbrt_error(fx, steps):
+    """R31e: k Newton steps x' = x - (x^3 - a)/(3 x^2) in double-double arithmetic from an estimate within 2^-30 (DESIGN B.4).
+    With x = c(1+e), c = cbrt(a):  x'/c = [g(e) - (d/c) kappa - (1+e) e1 (1+kappa)/3](1+e5),
+    g(e) - 1 = e^2 (1 + 2e/3)/(1+e)^2  (exact Newton),  d/c = ((1+e)^3 - 1)/(3(1+e)^2)."""
+    from . import errbound as EB
+    rep = fx.rep
+    u2 = EB.U * EB.U
+    e1 = (1 + EB.E_MUL_DD) ** 2 - 1                               # x2 = x*x, x2*x
+    e3 = (1 + EB.E_MUL_DD) * (1 + EB.E_MUL_FP) - 1                # 3.0 * x2
+    kappa = (1 + EB.E_ADD_DD) * (1 + EB.E_DIV_DD) / (1 - e3) - 1  # subtraction, long division (C05's statement), denominator
+    e5 = EB.E_ADD_DD                                              # x - delta
+    e = _Fr(1, 2 ** 30)                                           # libm::cbrt(hi) vs cbrt(hi + lo): a very weak assumption suffices
+    hist = []
+    for _ in range(steps):
+        g = e * e * (1 + 2 * e / 3) / (1 - e) ** 2
+        dl = e * (1 + e + e * e / 3) / (1 - e) ** 2
+        e = (g + dl * kappa + (1 + e) * e1 * (1 + kappa) / 3) * (1 + e5) + e5
+        hist.append("%.3g u^2" % float(e / u2))
+    rep.check(e <= 16 * u2, "R31e", "cbrt relative error for hi in [2^-900, 2^900]", "errbound:cbrt",
+              "%d Newton step(s) from an estimate within 2^-30 leave %.3g u^2, the property needs 16 u^2" % (steps, float(e / u2)),
+              detail={"after each step": hist, "lemmas": "libm::cbrt within 2^-30 relative; operator bounds (C03, C04), long division within 16u^2 (C05's statement)"})
+
+def check_powi_error(fx):
+    """R26e: binary exponentiation (the loop form R26 established) multiplies n - 1 times in effect: value_j = x^(2^j)(1+e)^(2^j - 1),
+    the first `result *= value` is 1 * value (exact, R8x), so x^n carries (1+e)^(n-1), e = 5u^2 (Alg. 12); a negative exponent adds the
+    reciprocal (long division, 16u^2).  (1+e)^m <= 1/(1 - m e)."""
+    from . import errbound as EB
+    rep = fx.rep
+    u2 = EB.U * EB.U
+    bad = []
+    ns = sorted(set(list(range(2, 66)) + [2 ** k + d for k in range(6, 32) for d in (-1, 0, 1) if 2 ** k + d <= 2 ** 31]))
+    for n in ns:
+        m = n - 1
+        up = 1 / (1 - m * EB.E_MUL_DD) * (1 + EB.E_DIV_DD) - 1
+        if up > (6 * n + 16) * u2:
+            bad.append(n)
+    rep.check(not bad, "R26e", "powi relative error (6|n| + 16) u^2 for 2 <= |n| <= 2^31", "errbound:powi",
+              "the square-and-multiply error bound (1+5u^2)^(n-1)(1+16u^2) - 1 exceeds (6n+16) u^2 at n = %s" % bad[:5],
+              detail="%d exponents checked incl. 2^k, 2^k +- 1 up to 2^31; the bound is increasing in n with slope 5u^2(1+o(1)) < 6u^2" % len(ns))
 
 def check_zero_division(fx, ident, t, b):
     """R32: three-valued must-analysis {Z, NZ, T} with the argument an exact zero."""
@@ -1247,3 +1319,4 @@ def check_powi_loop(fx):
     if not init_ok:
         return fail("initial state is not (result, value, remaining) = (1, self, |n| without overflow): %s, %s, %s" % (vg.show(hv_of[R][1]), vg.show(hv_of[Vv][1]), vg.show(hv_of[Nn][1])))
     rep.ok("R26", "powi square-and-multiply loop", detail="(result, value, k) = (1, self, unsigned_abs(n)); while k > 0 { if k&1 != 0 { result *= value }; value *= value; k >>= 1 }; n > 0 ? result : recip(result)")
+    return True
